@@ -15,6 +15,7 @@ import Driver.C12
 import Driver.C14
 import Driver.C17
 import Driver.C18
+import Driver.C20
 open Lean Driver
 
 def handlers : List (String × Handler) := [
@@ -35,6 +36,7 @@ def handlers : List (String × Handler) := [
   ("C14", Driver.C14.handle),
   ("C17", Driver.C17.handle),
   ("C18", Driver.C18.handle),
+  ("C20", Driver.C20.handle),
   ("C19", fun j => match getStr j "world" with
     | .ok "oauth1" => Driver.C12.handle j
     | _ => Driver.Provider.handle j)
